@@ -86,6 +86,19 @@ func (m *Machine) strConcat(a, b value) value {
 			return x + y
 		}
 	}
+	_, aT := a.(*tstr)
+	_, bT := b.(*tstr)
+	if aT || bT {
+		// concatenation with a tuple string is a tuple string: plain text becomes literal text of the
+		// format, the arguments are appended ("10.0.0.1:8805" + "-" + FormatUint(seq) -> "10.0.0.1:8805-%d")
+		fa, aa, ok1 := tuplePart(a)
+		fb, ab, ok2 := tuplePart(b)
+		if ok1 && ok2 {
+			args := append(append([]value{}, aa...), ab...)
+			return &tstr{format: "sym:" + fa + fb, args: args}
+		}
+		m.unsupported("concatenation of a formatted tuple string with a string of symbolic bytes")
+	}
 	ca, cb := m.strCells(a), m.strCells(b)
 	out := make([]value, 0, len(ca)+len(cb))
 	out = append(out, ca...)
@@ -126,7 +139,10 @@ func (m *Machine) strEq(a, b value) value {
 			}
 			m.unsupported("comparison of formatted tuple string with ordinary string")
 		}
-		if ta.format != tb.format || len(ta.args) != len(tb.args) {
+		if ta.format != tb.format || strings.HasPrefix(ta.format, "sym:") || ta.format == "%s-%d" {
+			return m.tupleEqAcross(ta, tb)
+		}
+		if len(ta.args) != len(tb.args) {
 			return false
 		}
 		var acc value = true
@@ -301,4 +317,150 @@ func (m *Machine) matchFormatted(t *tstr, s string) (value, bool) {
 		return false, true
 	}
 	return acc, true
+}
+
+// tuplePart: a string operand of a concatenation as (format text, arguments).
+func tuplePart(v value) (string, []value, bool) {
+	switch v := v.(type) {
+	case string:
+		return strings.ReplaceAll(v, "%", "%%"), nil, true
+	case *tstr:
+		if strings.HasPrefix(v.format, "sym:") {
+			return v.format[4:], v.args, true
+		}
+		if v.format == "%s-%d" {
+			return v.format, v.args, true
+		}
+	}
+	return "", nil, false
+}
+
+// canonTuple rewrites a tuple string as literal pieces around its integer arguments: concrete string
+// arguments (rendered when the tuple was built) are inlined into the text. pieces has one more
+// element than ints. ok is false for formats outside the plain vocabulary.
+func canonTuple(t *tstr) (pieces []string, verbs []fmtVerb, ints []value, ok bool) {
+	f := t.format
+	if strings.HasPrefix(f, "sym:") {
+		f = f[4:]
+	} else if f != "%s-%d" {
+		return nil, nil, nil, false
+	}
+	vs := simpleVerbs(f)
+	if vs == nil && strings.Contains(strings.ReplaceAll(f, "%%", ""), "%") {
+		return nil, nil, nil, false
+	}
+	cur := ""
+	ai := 0
+	for i := 0; i < len(f); {
+		if f[i] != '%' {
+			cur += string(f[i])
+			i++
+			continue
+		}
+		if i+1 < len(f) && f[i+1] == '%' {
+			cur += "%"
+			i += 2
+			continue
+		}
+		if ai >= len(vs) || ai >= len(t.args) {
+			return nil, nil, nil, false
+		}
+		vb := vs[ai]
+		arg := t.args[ai]
+		ai++
+		i += len(vb.text)
+		switch a := arg.(type) {
+		case string:
+			cur += a
+		case uint64, *term.Term:
+			if vb.verb == 's' {
+				return nil, nil, nil, false
+			}
+			pieces = append(pieces, cur)
+			cur = ""
+			verbs = append(verbs, vb)
+			ints = append(ints, a)
+		default:
+			return nil, nil, nil, false
+		}
+	}
+	if ai != len(t.args) {
+		return nil, nil, nil, false
+	}
+	pieces = append(pieces, cur)
+	return pieces, verbs, ints, true
+}
+
+// tupleEqAcross compares two tuple strings built from different formats (e.g. by concatenation with
+// different concrete prefixes). Both are brought into canonical form; the comparison is decided only
+// as follows. Equal pieces: the strings are equal iff the numbers are - for one number always, for
+// several only if the place of every number is fixed by the text around it (the piece before a
+// number does not end, and the one after it does not begin, with a character that number could be
+// written with, and no two numbers are adjacent). Different pieces: "not equal" is concluded only
+// from a difference in a literal position (before the first or after the last number); anything
+// subtler ends the path as unsupported.
+func (m *Machine) tupleEqAcross(a, b *tstr) value {
+	pa, va, ia, ok1 := canonTuple(a)
+	pb, vb, ib, ok2 := canonTuple(b)
+	if !ok1 || !ok2 {
+		m.unsupported("comparison of tuple strings %q and %q", a.format, b.format)
+	}
+	fixed := func(ps []string, vs []fmtVerb) bool {
+		for i, v := range vs {
+			isDigit := func(c byte) bool { return c >= '0' && c <= '9' }
+			switch v.verb {
+			case 'x':
+				isDigit = func(c byte) bool { return c >= '0' && c <= '9' || c >= 'a' && c <= 'f' }
+			case 'X':
+				isDigit = func(c byte) bool { return c >= '0' && c <= '9' || c >= 'A' && c <= 'F' }
+			}
+			before, after := ps[i], ps[i+1]
+			if i > 0 && before == "" {
+				return false
+			}
+			if before != "" && isDigit(before[len(before)-1]) {
+				return false
+			}
+			if after != "" && isDigit(after[0]) {
+				return false
+			}
+		}
+		return true
+	}
+	// with a single number and equal text around it nothing can shift: P+r(n)+Q == P+r(m)+Q iff n == m
+	if (len(ia) > 1 || len(ib) > 1) && (!fixed(pa, va) || !fixed(pb, vb)) {
+		m.unsupported("comparison of tuple strings %q and %q: the place of a number is not fixed by the text", a.format, b.format)
+	}
+	same := len(ia) == len(ib)
+	if same {
+		for i := range pa {
+			if pa[i] != pb[i] {
+				same = false
+				break
+			}
+		}
+	}
+	if !same {
+		// the texts differ somewhere. They cannot denote the same string if they already differ in a
+		// literal position: before the first number (neither first piece is a prefix of the other) or
+		// after the last one (neither last piece is a suffix of the other). Anything subtler - digits of
+		// a literal piece lining up with a number of the other string - is not decided.
+		fa, fb := pa[0], pb[0]
+		la, lb := pa[len(pa)-1], pb[len(pb)-1]
+		if !strings.HasPrefix(fa, fb) && !strings.HasPrefix(fb, fa) {
+			return false
+		}
+		if !strings.HasSuffix(la, lb) && !strings.HasSuffix(lb, la) {
+			return false
+		}
+		m.unsupported("comparison of tuple strings %q and %q", a.format, b.format)
+	}
+	var acc value = true
+	for i := range ia {
+		if va[i].text != vb[i].text {
+			m.unsupported("comparison of tuple strings with different number formats %q / %q", va[i].text, vb[i].text)
+		}
+		acc = m.and(acc, m.equals(nil, ia[i], ib[i]))
+	}
+	return acc
 }
